@@ -188,7 +188,7 @@ bool c20CanUnderconstrain(const GtModel &gt, int cls, std::string *why)
     case GtRole::VOI:
         return no("voi");
     case GtRole::STATE:
-        return no("state");
+        return true; // the initial value is removed ("used in an ODE, but not initialised")
     case GtRole::CONSTANT:
         for (const auto &o : gt.classes) {
             if (o.initialisedBy == cls) {
@@ -219,7 +219,7 @@ bool c20Underconstrain(GtModel &gt, const std::vector<int> &classes)
         const GtClass &cl = gt.classes[static_cast<size_t>(cls)];
         const auto &home = cl.inst[0];
         CompSpec &comp = gt.spec.comps[static_cast<size_t>(home.comp)];
-        if (cl.role == GtRole::CONSTANT) {
+        if (cl.role == GtRole::CONSTANT || cl.role == GtRole::STATE) {
             comp.vars[static_cast<size_t>(home.var)].initial.clear();
             continue;
         }
